@@ -45,6 +45,12 @@ def spec_of(runs):
 
 def classify(case, exc=None):
     runs = [t for t, _ in case["spec"]]
+    if case.get("op") == "slice":
+        col = 0
+        for t in runs:
+            if t and cols.w(t[0]) == 0 and col > 0 and col in (case["a"], case["b"]) and case["a"] < case["b"]:
+                return "C10:combining-character-opening-a-run-at-a-slice-edge"
+            col += sum(max(cols.w(c), 0) for c in t)
     if any(t and all(cols.w(c) == 0 for c in t) for t in runs):
         return "C10:zero-width-only-run"
     if case.get("op") == "slice" and case["a"] == case["b"]:
@@ -122,6 +128,8 @@ def _run_case(ctx, case):
             return
         lead, G = cols.group(got)
         ok = [g[0] for g in G] == [e[0] for e in E] and cols.width(got) == want_w
+        if lead and a > 0:
+            ok = False        # combining characters opening the result belong to column a-1, outside the range
         if ok:
             for (gc, gf), (ec, ef, allowed) in zip(G, E):
                 if ef is not None and gf != ef:
